@@ -865,3 +865,60 @@ mut("c16-size-hint-too-small", "C16", NV,
     """        (0, Some(self.data.len() / 2))""",
     """        (0, Some(self.data.len() / 4))""",
     "R16.5/size_hint", "more pairs than the upper bound")
+
+# ---- C19 -------------------------------------------------------------------------------------------------
+CG = "src/cgi/mod.rs"
+IN = "src/cgi/intern.rs"
+mut("c19-owned-hash-raw-bytes", "C19", CG,
+    """    fn hash<H: Hasher>(&self, state: &mut H) {
+        self.as_var().hash(state);
+    }""",
+    """    fn hash<H: Hasher>(&self, state: &mut H) {
+        self.as_ref().hash(state);
+    }""",
+    "R19.1/owned-hash-delegates", "owned and borrowed names hash differently")
+mut("c19-hash-write-unfolded-remainder", "C19", CG,
+    """        if !rem.is_empty() {
+            arr[..rem.len()].copy_from_slice(rem);
+            arr.make_ascii_uppercase();
+        }""",
+    """        if !rem.is_empty() {
+            arr[..rem.len()].copy_from_slice(rem);
+        }""",
+    "R19.3/varname-hash-folds", "case-variant spellings hash differently when shorter than 16 bytes")
+mut("c19-eq-exact", "C19", CG,
+    """        self.0.eq_ignore_ascii_case(&other.0)""",
+    """        self.0 == other.0""",
+    "R19.3/varname-eq", "equality is case-sensitive")
+mut("c19-fast-path-mixed", "C19", CG,
+    """        if let (&Static(s1), &Static(s2)) = (&self.0, &other.0) {
+            return s1 == s2;
+        }
+        self.as_var() == other.as_var()""",
+    """        if let (&Static(s1), &Static(s2)) = (&self.0, &other.0) {
+            return s1 == s2;
+        }
+        if matches!(self.0, Static(_)) != matches!(other.0, Static(_)) {
+            return false;
+        }
+        self.as_var() == other.as_var()""",
+    "R19.2/owned-eq", "an interned name never equals the same name stored as a custom string")
+mut("c19-lowercase-table-entry", "C19", IN,
+    """    CONTENT_LENGTH,
+    CONTENT_TYPE,""",
+    """    #[strum(serialize = "content_length")]
+    CONTENT_LENGTH,
+    CONTENT_TYPE,""",
+    "R19.4/interned-table", "one interned name reads back in lower case")
+mut("c19-string-ctor-not-normalising", "C19", CG,
+    """    fn from(v: String) -> Self {
+        Self::from_compact(v.into())
+    }""",
+    """    fn from(v: String) -> Self {
+        v.as_str().into()
+    }""",
+    "R19.5/delegates[std::string::String]", "String constructor keeps the spelling")
+mut("c19-header-prefix-dash", "C19", CG,
+    """        let mut var = CompactString::const_new("HTTP_");""",
+    """        let mut var = CompactString::const_new("HTTP-");""",
+    "R19.6/header-mapping", "wrong prefix")
